@@ -38,8 +38,10 @@ pub fn run(ctx: &Ctx) -> Value {
     let mut tc = Tw::new(&ctx.out, "Trace_ItemsCount", ctx.t(400, 4_000));
     let rounds = ctx.t(1, 12);
     let dates: Vec<NaiveDate> = [MIN_DAY, MIN_DAY + 1, MIN_DAY + 366, -1, 0, 1, 719_163, 738_000, 738_000 + 59, MAX_DAY - 366, MAX_DAY - 1, MAX_DAY].iter().map(|&n| mk_date(n)).collect();
-    let times: Vec<NaiveTime> = vec![mk_time_any(0, 0), mk_time_any(86_399, 999_999_999), mk_time_any(86_399, 1_999_999_999), mk_time_any(43_200, 1_000_000_000), mk_time_any(59, 1_500_000_000)];
-    let durs: Vec<TimeDelta> = [0i128, 1, -1, NS, -NS, 86_400 * NS, -86_400 * NS, DUR_LIM, -DUR_LIM, DUR_LIM - 1, i64::MAX as i128, -(i64::MAX as i128) - 1].iter().map(|&d| mk_dur(d).unwrap()).collect();
+    let times: Vec<NaiveTime> = vec![mk_time_any(0, 0), mk_time_any(86_399, 999_999_999), mk_time_any(86_399, 1_999_999_999), mk_time_any(43_200, 1_000_000_000), mk_time_any(59, 1_500_000_000), mk_time_any(86_399, 1_600_000_000)];
+    // (sub-second parts near one second: sums of nanosecond fields reach beyond i32::MAX for leap-second operands)
+    let durs: Vec<TimeDelta> = [0i128, 1, -1, NS, -NS, 86_400 * NS, -86_400 * NS, DUR_LIM, -DUR_LIM, DUR_LIM - 1, i64::MAX as i128, -(i64::MAX as i128) - 1,
+                                700_000_000, -700_000_000, 999_999_999, -999_999_999, NS + 999_999_999, -(NS + 999_999_999)].iter().map(|&d| mk_dur(d).unwrap()).collect();
     let offs: Vec<FixedOffset> = [0, 1, -1, 3600, -3600, 86_399, -86_399].iter().map(|&o| FixedOffset::east_opt(o).unwrap()).collect();
     macro_rules! call { ($op:expr, $args:expr, $body:expr) => { tw.emit(ev($op, $args, || $body)) }; }
     for round in 0..rounds {
@@ -314,6 +316,21 @@ pub fn run(ctx: &Ctx) -> Value {
             call!("Parsed.to_datetime", json!({}), rr(p.to_datetime(), vdtz));
             call!("Parsed.to_datetime_with_timezone", json!({}), rr(p.to_datetime_with_timezone(&Utc), vdtz));
             call!("Parsed.to_datetime_with_timezone", json!({}), rr(p.to_datetime_with_timezone(&offs[5]), vdtz));
+        }
+        // a wall clock at a range end with an offset that pushes the instant out of range: through the parsers and through Parsed
+        for (txt, fmt) in [("+262142-12-31 23:59:59 -01:00", "%Y-%m-%d %H:%M:%S %:z"), ("-262143-01-01 00:00:00 +00:30", "%Y-%m-%d %H:%M:%S %:z"), ("+262142-12-31T23:59:59-00:01", "%Y-%m-%dT%H:%M:%S%:z"),
+                           ("-262143-01-01 00:00:00 +2359", "%Y-%m-%d %H:%M:%S %z"), ("+262142-12-31 23:59:60 -01:00", "%Y-%m-%d %H:%M:%S %:z"), ("+262143-01-01 00:00:00 +01:00", "%Y-%m-%d %H:%M:%S %:z")] {
+            let a2 = json!({"f": cps(fmt), "s": cps(txt)});
+            call!("DateTime.parse_from_str", a2.clone(), rr(DateTime::parse_from_str(txt, fmt), vdtz));
+            call!("DateTime.parse_and_remainder", a2.clone(), rr(DateTime::parse_and_remainder(txt, fmt), |x| vdtz(x.0)));
+            call!("format.parse", a2.clone(), { let mut p = Parsed::new(); let r = chrono::format::parse(&mut p, txt, StrftimeItems::new(fmt)); let _ = r; rr(p.to_datetime(), vdtz) });
+        }
+        for (y, mo, d, off) in [(262_142i64, 12i64, 31i64, -3600i64), (-262_143, 1, 1, 1800), (262_142, 12, 31, -1), (-262_143, 1, 1, 86_399), (262_142, 12, 31, -86_399)] {
+            let mut p = Parsed::new();
+            let _ = p.set_year(y); let _ = p.set_month(mo); let _ = p.set_day(d); let _ = p.set_hour(if off < 0 { 23 } else { 0 }); let _ = p.set_minute(if off < 0 { 59 } else { 0 }); let _ = p.set_second(if off < 0 { 59 } else { 0 }); let _ = p.set_offset(off);
+            call!("Parsed.to_datetime", json!({"y": y, "off": off}), rr(p.to_datetime(), vdtz));
+            call!("Parsed.to_datetime_with_timezone", json!({"y": y, "off": off}), rr(p.to_datetime_with_timezone(&FixedOffset::east_opt(off as i32).unwrap()), vdtz));
+            call!("Parsed.to_naive_datetime_with_offset", json!({"y": y, "off": off}), rr(p.to_naive_datetime_with_offset(off as i32), vndt));
         }
         // the Parsed witness of DESIGN section 10 #4 and friends
         for ts in [-8_334_601_228_800i64, 8_210_266_876_799, 0, 59] { for sec in [0i64, 59, 60] {
